@@ -6,7 +6,8 @@ from .core import ToolError, log, VERIF, EXIT_OK, EXIT_TOOL, EXIT_VIOLATION
 
 TRUSTED_BASE = [
     "cbmc 6.11.0 (goto-cc, goto-instrument, built-in MiniSat 2 back end)",
-    "rewrite rules R1 (crypt.c '? 0 :' cast), R2 (errno as a plain global) - DESIGN.md 3.1",
+    "rewrite rules R1 (crypt.c '? 0 :' cast), R2 (errno as a plain global), R6/R7 (`*const` on three never-assigned static pointers of crypt-pbkdf1-sha1.c and crypt-nthash.c) - DESIGN.md 3.1",
+    "goto-instrument's loop-contract pass gives non-const statics a nondeterministic initial value (an over-approximation of the initial state; ghosts are set explicitly by each harness) - DESIGN.md 11.2",
     "libc/OS models in /verif/models (strlen family, strtoul, snprintf, explicit_bzero, malloc/realloc/free, mmap/munmap, arc4random_buf)",
     "contract stubs of callees are generated from the same predicate text that the callee's own enforcement job checks (contracts/*.h)",
     "GNU C semantics for left shift of negative int (A-gnuc); machine integers are bit-vectors, not mathematical",
